@@ -48,7 +48,8 @@ ASSUMPTIONS = [
     "'far apart' to sequences that differ in every position",
 ]
 
-SHAPES = [(1, 1, "distinct"), (2, 3, "distinct"), (3, 2, "distinct"), (4, 4, "same"), (3, 3, "none")]
+SHAPES = [(1, 1, "distinct"), (2, 3, "distinct"), (3, 2, "distinct"), (4, 4, "same"), (3, 3, "none"),
+          (3, 3, "perturbed")]  # x2 = x1 (1 + 5e-6): equal up to torch.allclose's default tolerance, but a different point set
 GEOMS = ["generic", "dup", "near", "far"]
 BASIS = ["rbf", "matern1.5", "linear", "periodic", "const"]
 STRUCT_BASES = ["rbf", "matern1.5", "periodic"]
@@ -61,6 +62,7 @@ SIMPLE = {
     "poly1": (False, True, False), "poly2": (False, True, False), "poly3": (False, True, False),
     "pp0": (True, True, False), "pp1": (True, True, False), "pp2": (True, True, False), "pp3": (True, True, False),
     "const": (False, True, False), "sm": (False, True, False), "sdelta": (True, True, False), "arc": (True, True, False),
+    "arc_delta": (True, True, False),
     "cyl": (False, True, False), "hamming": (False, True, False), "gskl": (False, True, False), "distinput": (False, True, False),
 }
 DERIV = {"rbfgrad": (True, True), "matern52grad": (True, True), "polygrad1": (False, True), "polygrad2": (False, True),
@@ -117,7 +119,7 @@ def cells(tier, seed):
         dss = [1, 2, 3] if fam == "simple" else ds
         for d, shape, ard, batch, val, mode, path, geom in itertools.product(
                 dss, range(len(SHAPES)), [False, True] if ard_ok else [False], [0, 1] if batch_ok else [0], vals, ["full", "diag"], paths, geoms):
-            if mode == "diag" and SHAPES[shape][2] == "distinct":
+            if mode == "diag" and SHAPES[shape][2] in ("distinct", "perturbed"):
                 continue  # documented: diag=True requires x1 == x2
             if spec[0] == "ng" and spec[2] > d:
                 continue  # max_degree is capped at num_dims: same kernel as max_degree = d
@@ -221,9 +223,11 @@ def build(spec, ctx, tag, D):
         k.lengthscale = ctx.pv(tag + ".ls", (*bs, 1, D if ctx.ard else 1))
         k.Z = ctx.pv(tag + ".Z", (*bs, S, D), 0.05, 0.8)
         return k, lambda b, dim=None: R.spectral_delta(k.Z.detach()[b].reshape(S, D), _vec(k.lengthscale, b))
-    if head == "arc":
+    if head in ("arc", "arc_delta"):
         base = K.MaternKernel(nu=2.5) if ctx.val == 0 else K.RBFKernel()
-        k = K.ArcKernel(base, ard_num_dims=D if ctx.ard else None, batch_shape=bs)
+        # arc_delta: a user-supplied activity indicator that depends on the magnitude of the raw input (a dimension is inactive above 0.3)
+        delta = (lambda x: (x < 0.3).to(x.dtype)) if head == "arc_delta" else None
+        k = K.ArcKernel(base, ard_num_dims=D if ctx.ard else None, batch_shape=bs, **({"delta_func": delta} if delta else {}))
         L = D if ctx.ard else 1
         k.lengthscale = ctx.pv(tag + ".ls", (*bs, 1, L), 1.0, 3.0)
         k.angle = ctx.pv(tag + ".angle", (*bs, 1, L), 0.15, 0.85)
@@ -232,7 +236,7 @@ def build(spec, ctx, tag, D):
         def ref(b, dim=None):
             bl = base.lengthscale.detach().reshape(-1)
             bref = R.matern(bl, 2.5) if ctx.val == 0 else R.rbf(bl)
-            return R.arc(_vec(k.lengthscale, b), _vec(k.angle, b), _vec(k.radius, b), bref)
+            return R.arc(_vec(k.lengthscale, b), _vec(k.angle, b), _vec(k.radius, b), bref, delta)
 
         return k, ref
     if head == "cyl":
@@ -358,6 +362,8 @@ def make_inputs(cell, g, bs, D, domain):
         x2 = x1.clone()
     elif rel == "none":
         x2 = None
+    elif rel == "perturbed" and domain != "hamming":
+        x2 = x1 * (1.0 + 5e-6)
     return x1, x2
 
 
